@@ -2,9 +2,10 @@
 //!
 //! E-SEQ: every sequence of length <= d over a small alphabet of decimal values (two alphabets: "wide
 //! magnitudes" and "close values") is fed value by value to the REAL `DataSetSummary::update`; after
-//! EVERY update the summary is compared with batch formulas evaluated on the *sorted multiset* of the
-//! values seen so far in exact integer arithmetic (own tiny big-integer, no rounding at all). Since the
-//! reference is a function of the multiset only, agreement for every order is also order-independence.
+//! EVERY update the summary is compared with batch formulas evaluated on the *multiset* of the values seen
+//! so far in exact integer arithmetic (own tiny big-integer, no rounding at all; `Exact` keeps n, the sum and
+//! the sum of squares of the integer numerators over 10^28, min and max). Since the reference is a function
+//! of the multiset only, agreement for every order is also order-independence.
 //!
 //! Oracle rules (sentence of the statement -> rule):
 //!  * "count, sum, mean, population variance, standard deviation and range equal the values computed
@@ -33,6 +34,13 @@
 //!    deterministic long sequences (every cyclic walk through the alphabet, forwards and backwards from
 //!    every start, and runs of repeated values) of N = 96 / 400 values is fed as well, the same oracle
 //!    after EVERY update - every dataset length 1..=N is covered for each of them.
+//!  Second hardening round:
+//!  * the exhaustive short sequences of the "fine" alphabet carry a value with 27 fractional digits (the last
+//!    digit a `Decimal` can hold next to 2), so no resolution coarser than the type's own passes;
+//!  * "very long" layer: N = 2100 / 8400 values per alphabet in three shapes - cyclic forwards, cyclic
+//!    backwards, and one long BLOCK per alphabet value (every value, the extreme ones too, first arrives only
+//!    after hundreds / thousands of others) - same oracle after every update: count-dependent behaviour
+//!    beyond a few hundred values, and anything that treats a late newcomer differently from an early one.
 
 use crate::core::{Ctx, Outcome, hash_of};
 use crate::explore::seq::{self, SeqModel, Viol};
@@ -239,6 +247,14 @@ const ALPHA_CLOSE: [&str; 6] =
 const ALPHA_FINE: [&str; 6] =
     ["2", "-1.5", "0.123456789012345678", "1.000000000000000001", "-0.000000000000000001", "0.3333333333333333333"];
 
+/// Alphabet C as used by the exhaustive SHORT sequences: the 18-digit value is replaced by one with 27
+/// fractional digits, the finest resolution a `Decimal` next to 2 can carry (1 + 27 = 28 significant digits) -
+/// "a value is taken as it is" down to the last digit of the type. (Not used for the long sequences: there the
+/// sum outgrows 28 digits, the implementation has to round it, and a bound on that is no longer the plain
+/// K*1e-24. With <= 7 values every sum over this alphabet is still exact.)
+const ALPHA_FINE_SHORT: [&str; 6] =
+    ["2", "-1.5", "0.123456789012345678901234567", "1.000000000000000001", "-0.000000000000000001", "0.3333333333333333333"];
+
 /// A deterministic long sequence over an alphabet of `n` values: the index of the i-th value.
 #[derive(Debug, Clone, Copy)]
 pub enum Pattern {
@@ -274,10 +290,49 @@ impl Pattern {
     }
 }
 
-/// real object + poison flag (set when `update` panicked; the branch is then cut)
+/// The batch reference, kept as exact integers: every `Decimal` is an integer numerator over 10^28 (its
+/// scale is at most 28), so n, S = sum of numerators, SumSq = sum of their squares, min and max describe the
+/// multiset of the values seen so far without any rounding. Integer addition is commutative and associative:
+/// these are functions of the MULTISET only, whatever the arrival order.
+#[derive(Clone)]
+pub struct Exact {
+    n: i128,
+    s: Big,
+    sq: Big,
+    min: Option<(Decimal, Big)>,
+    max: Option<(Decimal, Big)>,
+    maxabs: Decimal,
+}
+
+impl Exact {
+    fn new() -> Self {
+        Exact { n: 0, s: Big::zero(), sq: Big::zero(), min: None, max: None, maxabs: Decimal::ZERO }
+    }
+    fn push(&mut self, x: Decimal) {
+        let xi = Big::from_i128(x.mantissa()).mul(&Big::pow10(28 - x.scale()));
+        self.n += 1;
+        self.s = self.s.add(&xi);
+        self.sq = self.sq.add(&xi.mul(&xi));
+        if self.min.as_ref().map_or(true, |(m, _)| x < *m) {
+            self.min = Some((x, xi.clone()));
+        }
+        if self.max.as_ref().map_or(true, |(m, _)| x > *m) {
+            self.max = Some((x, xi));
+        }
+        self.maxabs = self.maxabs.max(x.abs());
+    }
+    fn of(values: &[Decimal]) -> Self {
+        let mut e = Exact::new();
+        values.iter().for_each(|v| e.push(*v));
+        e
+    }
+}
+
+/// real object + exact reference + poison flag (set when `update` panicked; the branch is then cut)
 #[derive(Clone)]
 pub struct St {
     sum: DataSetSummary,
+    ex: Exact,
     poisoned: bool,
 }
 
@@ -313,40 +368,23 @@ fn dec(s: &str) -> Decimal {
     Decimal::from_str(s).expect("alphabet value parses")
 }
 
-/// The oracle: compare `got` with the batch statistics of `values` (any order).
-fn check(m: &M, got: &DataSetSummary, values: &[Decimal], out: &mut Vec<Viol>) {
-    let n = values.len() as i128;
-    // order-free by construction: work on the sorted multiset
-    let mut sorted: Vec<Decimal> = values.to_vec();
-    sorted.sort();
-    let scale = sorted.iter().map(|v| v.scale()).max().unwrap_or(0);
-    let den = Big::pow10(scale);
-    // integer numerators over the common power-of-ten denominator
-    let xs: Vec<Big> = sorted
-        .iter()
-        .map(|v| Big::from_i128(v.mantissa()).mul(&Big::pow10(scale - v.scale())))
-        .collect();
-    let mut s = Big::zero();
-    let mut sq = Big::zero();
-    for x in &xs {
-        s = s.add(x);
-        sq = sq.add(&x.mul(x));
-    }
+/// The oracle: compare `got` with the batch statistics of the multiset described by `ex`.
+fn check(m: &M, got: &DataSetSummary, ex: &Exact, ctxt: &dyn Fn() -> String, out: &mut Vec<Viol>) {
+    let n = ex.n;
+    let den = Big::pow10(28);
+    let (s, sq) = (ex.s.clone(), ex.sq.clone());
     let nb = Big::from_i128(n);
     let sum_exact = Rat::new(s.clone(), den.clone());
     let mean_exact = Rat::new(s.clone(), den.mul(&nb));
     // population variance = (n*SumSq - S^2) / (n^2 * den^2)
     let var_exact = Rat::new(nb.mul(&sq).sub(&s.mul(&s)), nb.mul(&nb).mul(&den).mul(&den));
-    let (min, max) = (sorted[0], sorted[sorted.len() - 1]);
+    let ((min, min_i), (max, max_i)) = (ex.min.clone().expect("non-empty"), ex.max.clone().expect("non-empty"));
 
     // data scale K and tolerances
-    let maxabs = sorted.iter().map(|v| v.abs()).max().unwrap();
-    let k = Big::from_i128(maxabs.ceil().to_i128().expect("alphabet magnitudes fit i128").max(1));
+    let k = Big::from_i128(ex.maxabs.ceil().to_i128().expect("alphabet magnitudes fit i128").max(1));
     let e24 = Big::pow10(24);
     let tol_lin = Rat::new(k.clone(), e24.clone());
     let tol_sq = Rat::new(k.mul(&k), e24.clone());
-
-    let ctxt = || format!("values={:?}", values.iter().map(|v| v.to_string()).collect::<Vec<_>>());
 
     if got.count != Decimal::from(n as i64) {
         out.push(("C17/batch-equality/count".into(), format!("count={} expected {n}; {}", got.count, ctxt())));
@@ -412,7 +450,7 @@ fn check(m: &M, got: &DataSetSummary, values: &[Decimal], out: &mut Vec<Viol>) {
         out.push(("C17/batch-equality/range-low".into(), format!("range.low={} expected {min}; {}", rg.low, ctxt())));
     }
     // the range VALUE (high - low as the summary itself reports it) against max - min of the dataset
-    let range_exact = Rat::new(xs[xs.len() - 1].sub(&xs[0]), den.clone());
+    let range_exact = Rat::new(max_i.sub(&min_i), den.clone());
     match crate::core::guarded(|| rg.range()) {
         Ok(value) => {
             let (ok, r) = Rat::from_decimal(value).close(&range_exact, &tol_lin);
@@ -443,7 +481,7 @@ impl SeqModel for M {
     type Sym = String;
 
     fn init(&self) -> St {
-        St { sum: DataSetSummary::default(), poisoned: false }
+        St { sum: DataSetSummary::default(), ex: Exact::new(), poisoned: false }
     }
     fn alphabet(&self, s: &St, hist: &[String]) -> Vec<String> {
         match (s.poisoned, &self.pattern) {
@@ -454,6 +492,9 @@ impl SeqModel for M {
     }
     fn step(&self, s: &mut St, sym: &String, hist: &[String], out: &mut Vec<Viol>) {
         let x = dec(sym);
+        if s.ex.n != hist.len() as i128 {
+            s.ex = Exact::of(&hist.iter().map(|h| dec(h)).collect::<Vec<_>>()); // (never on the explorer's paths)
+        }
         // the REAL running update
         let mut next = s.sum.clone();
         let res = std::panic::catch_unwind(std::panic::AssertUnwindSafe(|| {
@@ -466,14 +507,20 @@ impl SeqModel for M {
                 s.poisoned = true;
                 out.push((
                     "C17/batch-equality/update-panicked".into(),
-                    format!("DataSetSummary::update({x}) panicked after {hist:?}"),
+                    format!("DataSetSummary::update({x}) panicked after {} values ending {:?}", hist.len(), &hist[hist.len().saturating_sub(8)..]),
                 ));
                 return;
             }
         }
-        let mut values: Vec<Decimal> = hist.iter().map(|h| dec(h)).collect();
-        values.push(x);
-        check(self, &s.sum, &values, out);
+        s.ex.push(x);
+        let ctxt = || {
+            if hist.len() < 12 {
+                format!("values={:?}", hist.iter().chain(std::iter::once(sym)).collect::<Vec<_>>())
+            } else {
+                format!("{} values (all in the case), the first {:?}, the last {:?} and {sym}", hist.len() + 1, &hist[..5], &hist[hist.len() - 5..])
+            }
+        };
+        check(self, &s.sum, &s.ex, &ctxt, out);
     }
     fn final_hash(&self, s: &St) -> u64 {
         // canonical text of the real summary (Decimal's Hash is value based; text keeps it simple)
@@ -489,8 +536,8 @@ pub fn run(ctx: &Ctx) -> Outcome {
     let sa = seq::run(ctx, &ma, "wide", len_a);
     let mb = M::new(&ALPHA_CLOSE);
     let sb = seq::run(ctx, &mb, "close", len_b);
-    let mc = M::new(&ALPHA_FINE);
-    let sc = seq::run(ctx, &mc, "fine", len_c);
+    let mc = M::new(&ALPHA_FINE_SHORT);
+    let sc = seq::run(ctx, &mc, "fine-short", len_c);
 
     // long layer: one deterministic sequence of `long_n` values per (alphabet, pattern); the oracle runs
     // after every update, so every dataset length 1..=long_n is judged
@@ -512,17 +559,62 @@ pub fn run(ctx: &Ctx) -> Outcome {
     let worst_of = |key: &str| long.iter().map(|(_, w)| w[key].as_f64().unwrap_or(0.0)).fold(0.0f64, f64::max);
     let long_worst = json!({"sum": worst_of("sum"), "mean": worst_of("mean"), "variance": worst_of("variance"), "std_dev_squared": worst_of("std_dev_squared")});
 
+    // very long layer (own loop: the explorer's DFS recurses once per value)
+    let vlong_n: usize = ctx.tier.pick(2100, 8400);
+    let vjobs: Vec<(&str, &[&str], Pattern, &str)> = alphas
+        .iter()
+        .flat_map(|(name, a)| {
+            [
+                (*name, *a, Pattern::Cyclic { start: 0, stride: 1 }, "forwards"),
+                (*name, *a, Pattern::Cyclic { start: 0, stride: a.len() - 1 }, "backwards"),
+                (*name, *a, Pattern::Runs { run: vlong_n / a.len() }, "blocks"),
+            ]
+        })
+        .collect();
+    let vlong: Vec<(u64, std::collections::HashSet<u64>, Value)> = vjobs
+        .par_iter()
+        .map(|(name, alpha, p, shape)| {
+            let mut m = M::new(alpha);
+            m.pattern = Some(*p);
+            let label = format!("verylong-{name}-{shape}");
+            let mut st = m.init();
+            let mut hist: Vec<String> = Vec::with_capacity(vlong_n);
+            let mut distinct = std::collections::HashSet::new();
+            let mut steps = 0u64;
+            for i in 0..vlong_n {
+                let sym = m.alphabet[p.index(i, m.alphabet.len())].clone();
+                let mut out = Vec::new();
+                m.step(&mut st, &sym, &hist, &mut out);
+                hist.push(sym);
+                steps += 1;
+                distinct.insert(m.final_hash(&st));
+                if !out.is_empty() {
+                    // the first divergence of this sequence; everything after it is its echo
+                    for (sig, detail) in out {
+                        ctx.violate(sig, detail, json!({"engine": "seq", "label": label, "seq": hist}));
+                    }
+                    break;
+                }
+            }
+            (steps, distinct, m.worst_json())
+        })
+        .collect();
+    let vlong_steps: u64 = vlong.iter().map(|v| v.0).sum();
+    let vlong_distinct: usize = vlong.iter().map(|v| v.1.len()).sum();
+    let vworst_of = |key: &str| vlong.iter().map(|v| v.2[key].as_f64().unwrap_or(0.0)).fold(0.0f64, f64::max);
+    let vlong_worst = json!({"sum": vworst_of("sum"), "mean": vworst_of("mean"), "variance": vworst_of("variance"), "std_dev_squared": vworst_of("std_dev_squared")});
+
     let samples = vec![
         json!({"alphabet": "wide", "seq": ["1000000000", "0.000000001", "-1000000000", "0.3333333333"]}),
         json!({"alphabet": "close", "seq": ["100", "100.000000001", "99.999999999"]}),
-        json!({"alphabet": "fine", "seq": ["1.000000000000000001", "-0.000000000000000001", "0.3333333333333333333"]}),
+        json!({"alphabet": "fine", "seq": ["1.000000000000000001", "-0.000000000000000001", "0.3333333333333333333", "0.123456789012345678901234567"]}),
     ];
     Outcome {
         level: "exploration",
         coverage: json!({
-            "evaluations": sa.steps + sb.steps + sc.steps + long_steps,
-            "sequences": sa.sequences + sb.sequences + sc.sequences + long.len() as u64,
-            "distinct_nontrivial": sa.distinct_final + sb.distinct_final + sc.distinct_final + long_distinct,
+            "evaluations": sa.steps + sb.steps + sc.steps + long_steps + vlong_steps,
+            "sequences": sa.sequences + sb.sequences + sc.sequences + long.len() as u64 + vlong.len() as u64,
+            "distinct_nontrivial": sa.distinct_final + sb.distinct_final + sc.distinct_final + long_distinct + vlong_distinct,
             "exhaustive": true,
             "max_len_wide": len_a,
             "max_len_close": len_b,
@@ -530,23 +622,29 @@ pub fn run(ctx: &Ctx) -> Outcome {
             "alphabet_wide": ALPHA_WIDE,
             "alphabet_close": ALPHA_CLOSE,
             "alphabet_fine": ALPHA_FINE,
+            "alphabet_fine_short_sequences": ALPHA_FINE_SHORT,
             "per_alphabet": [
                 {"alphabet": "wide", "sequences": sa.sequences, "oracle_evaluations": sa.steps, "distinct_final_summaries": sa.distinct_final, "worst_error_over_tolerance": ma.worst_json()},
                 {"alphabet": "close", "sequences": sb.sequences, "oracle_evaluations": sb.steps, "distinct_final_summaries": sb.distinct_final, "worst_error_over_tolerance": mb.worst_json()},
-                {"alphabet": "fine", "sequences": sc.sequences, "oracle_evaluations": sc.steps, "distinct_final_summaries": sc.distinct_final, "worst_error_over_tolerance": mc.worst_json()},
+                {"alphabet": "fine (short-sequence variant, 27 fractional digits)", "sequences": sc.sequences, "oracle_evaluations": sc.steps, "distinct_final_summaries": sc.distinct_final, "worst_error_over_tolerance": mc.worst_json()},
             ],
             "long_sequences": {
                 "values_per_sequence": long_n, "sequences": long.len(), "oracle_evaluations": long_steps, "distinct_summaries": long_distinct,
                 "patterns": "per alphabet: cyclic walk forwards and backwards from every start value, runs of 5 and of 16 equal values",
                 "worst_error_over_tolerance": long_worst,
             },
+            "very_long_sequences": {
+                "values_per_sequence": vlong_n, "sequences": vlong.len(), "oracle_evaluations": vlong_steps, "distinct_summaries": vlong_distinct,
+                "patterns": "per alphabet: cyclic forwards, cyclic backwards, one block of N/len equal values per alphabet value",
+                "worst_error_over_tolerance": vlong_worst,
+            },
             "rule": "every sequence (hence every order of every multiset) of length <= max_len over each of three alphabets, and a family of long deterministic sequences, fed to the real DataSetSummary::update; after every update count/range bounds exact, sum/mean/range() within K*1e-24, variance within K^2*1e-24 of exact big-integer batch formulas over the sorted multiset (K = data scale), std_dev^2 vs exact variance, variance >= 0, low <= mean <= high",
             "samples": samples,
         }),
         assumptions: vec![
-            "values are taken from three fixed alphabets (magnitudes 1e-18 .. 1e9, <= 19 fractional digits); Decimal overflow behaviour is not part of the property".into(),
+            "values are taken from three fixed alphabets (magnitudes 1e-18 .. 1e9, <= 19 fractional digits, one value of 27 fractional digits in the short sequences); Decimal overflow behaviour is not part of the property".into(),
             "'within decimal rounding' is read as an absolute error of at most K*1e-24 (K^2*1e-24 for squared quantities), K = max(1, ceil(max|x|)), also for the long sequences (measured worst error/tolerance in the evidence)".into(),
-            "the long layer is exhaustive over dataset lengths 1..=N for its fixed patterns, not over all sequences of that length".into(),
+            "the long and very long layers are exhaustive over dataset lengths 1..=N for their fixed patterns, not over all sequences of that length".into(),
         ],
     }
 }
@@ -554,6 +652,7 @@ pub fn run(ctx: &Ctx) -> Outcome {
 fn alphabet_of(label: Option<&str>) -> &'static [&'static str] {
     match label {
         Some(l) if l.contains("close") => &ALPHA_CLOSE,
+        Some(l) if l.contains("fine-short") => &ALPHA_FINE_SHORT,
         Some(l) if l.contains("fine") => &ALPHA_FINE,
         _ => &ALPHA_WIDE,
     }
